@@ -467,6 +467,9 @@ def run(ctx):
                     ctx.ev("pure.reexecute")
                     ctx.violation("pure.reexecute", f"{name}: original tape no longer executes after the transform: {type(e).__name__}: {e}",
                                   case={"transform": name, "tape": gen.describe(tape)}, mech=f"mutates-input:{name}")
+    # ---- thorough tier: the repository's own doctests run with M-PURE on (independent workload)
+    if not ctx.quick and ctx.shard == ctx.nshards - 1:
+        _doctest_workload(ctx)
     # ---- ambient part: QNode executions (device preprocessing + gradient transforms all pass through M-PURE)
     if ctx.shard % 2 == 0:
         _qnode_workload(ctx, qp, gen)
@@ -505,3 +508,35 @@ def _qnode_workload(ctx, qp, gen):
             ctx.count("qnode_gradients_run")
         except Exception as e:  # noqa: BLE001
             ctx.note_add("qnode_workload_errors", f"{diff}: {type(e).__name__}: {str(e)[:100]}")
+
+
+def _doctest_workload(ctx):
+    import json
+    import os
+    import subprocess
+    import sys
+
+    root = os.path.dirname(os.path.dirname(os.path.dirname(os.path.abspath(__file__))))
+    work = os.path.join(root, "evidence", ".work", "C18")
+    os.makedirs(work, exist_ok=True)
+    out = os.path.join(work, "doctest_bus.json")
+    if os.path.exists(out):
+        os.remove(out)
+    repo = os.path.dirname(os.path.dirname(os.path.abspath(sys.modules["pennylane"].__file__)))
+    env = dict(os.environ, PV_AMBIENT="pure", PV_AMBIENT_OUT=out, PV_AMBIENT_PROP="C18")
+    env["PYTHONPATH"] = root + os.pathsep + repo + os.pathsep + env.get("PYTHONPATH", "")
+    try:
+        subprocess.run([sys.executable, "-m", "pytest", "-q", "-p", "no:cacheprovider", "-p", "pv.pytest_plugin", "--timeout=900",
+                        "--continue-on-collection-errors", "doc"], cwd=repo, env=env, stdout=subprocess.DEVNULL, stderr=subprocess.DEVNULL,
+                       timeout=max(120, ctx.budget_s * 2))
+    except subprocess.TimeoutExpired:
+        ctx.note("doctest_workload", "timed out (not a verdict)")
+        return
+    if not os.path.exists(out):
+        ctx.note("doctest_workload", "no bus produced")
+        return
+    from pv.ctx import absorb
+    d = json.load(open(out))
+    absorb(ctx, d, prefix="doctests.")
+    ctx.note("doctest_workload", {"tests_collected": d.get("tests_collected"), "tests_failed": d.get("tests_failed"),
+                                  "transform_applications_observed": d.get("evals", {}).get("pure.input_unchanged", 0)})
